@@ -63,8 +63,8 @@ impl AsyncRichIndexerHandle {
                 )
                 .await?;
 
-                let mut last_id = 0;
-                let mut count = 0i32;
+                // the rows of this page continue the transaction the previous page ended in
+                let (mut last_id, mut count) = last_cursor.unwrap_or((0, 0i32));
                 let txs = txs
                     .into_iter()
                     .map(|(id, block_number, tx_index, tx_hash, io_type, io_index)| {
